@@ -67,6 +67,60 @@ def make_ddx_run(inner, outer):
     return run
 
 
+def make_ddy_run(lower, upper):
+    """MeshRegion.DDY (used by the x-y derivative form of the curvature): centred differences
+    at four locations, differences across y-joins, one-sided half-cell differences at targets."""
+
+    def run(ctx):
+        from hypnotoad.core import mesh as M
+
+        nx, ny = 1, 2
+        r = mk.skeleton_region(True)
+        r.nx, r.ny = nx, ny
+        f = mk.sym_mla(ctx, "f", mk.LOCS4, nx, ny, shared=False)
+        r.dy = mk.sym_mla(ctx, "dy", mk.LOCS4, nx, ny, shared=False)
+        for l in mk.LOCS4:
+            for v in getattr(r.dy, l).flat:
+                ctx.assume(v != 0)
+        r.fld = f
+        flo = mk.sym_mla(ctx, "flo", mk.LOCS4, nx, ny, shared=False)
+        fup = mk.sym_mla(ctx, "fup", mk.LOCS4, nx, ny, shared=False)
+        r.connections = dict(lower=1 if lower else None, upper=2 if upper else None, inner=None, outer=None)
+        r.meshParent = types.SimpleNamespace(regions={1: types.SimpleNamespace(fld=flo), 2: types.SimpleNamespace(fld=fup)})
+        with patched((M.warnings, "warn", lambda *a, **k: None)):
+            res = M.MeshRegion.DDY(r, "#fld")
+        with spec_mode():
+            for i in range(nx):
+                for j in range(ny):
+                    ctx.oblige(res.centre[i, j] * r.dy.centre[i, j] == f.ylow[i, j + 1] - f.ylow[i, j], "centre[%d]: (f.ylow[j+1]-f.ylow[j])/dy.centre" % j)
+                for j in range(1, ny):
+                    ctx.oblige(res.ylow[i, j] * r.dy.ylow[i, j] == f.centre[i, j] - f.centre[i, j - 1], "ylow[%d]: (f.centre[j]-f.centre[j-1])/dy.ylow" % j)
+                if lower:
+                    ctx.oblige(res.ylow[i, 0] * r.dy.ylow[i, 0] == f.centre[i, 0] - flo.centre[i, -1], "ylow[0]: difference across the lower join")
+                else:
+                    ctx.oblige(res.ylow[i, 0] * r.dy.ylow[i, 0] == 2 * (f.centre[i, 0] - f.ylow[i, 0]), "ylow[0]: one-sided at the lower target (dy/2)")
+                if upper:
+                    ctx.oblige(res.ylow[i, ny] * r.dy.ylow[i, ny] == fup.centre[i, 0] - f.centre[i, -1], "ylow[ny]: difference across the upper join")
+                else:
+                    ctx.oblige(res.ylow[i, ny] * r.dy.ylow[i, ny] == 2 * (f.ylow[i, ny] - f.centre[i, -1]), "ylow[ny]: one-sided at the upper target (dy/2)")
+            for i in range(nx + 1):
+                for j in range(ny):
+                    ctx.oblige(res.xlow[i, j] * r.dy.xlow[i, j] == f.corners[i, j + 1] - f.corners[i, j], "xlow[%d,%d]: (f.corners[j+1]-f.corners[j])/dy.xlow" % (i, j))
+                for j in range(1, ny):
+                    ctx.oblige(res.corners[i, j] * r.dy.corners[i, j] == f.xlow[i, j] - f.xlow[i, j - 1], "corners[%d,%d]: (f.xlow[j]-f.xlow[j-1])/dy.corners" % (i, j))
+                if lower:
+                    ctx.oblige(res.corners[i, 0] * r.dy.corners[i, 0] == f.xlow[i, 0] - flo.xlow[i, -1], "corners[%d,0]: difference across the lower join" % i)
+                else:
+                    ctx.oblige(res.corners[i, 0] * r.dy.corners[i, 0] == 2 * (f.xlow[i, 0] - f.corners[i, 0]), "corners[%d,0]: one-sided at the lower target" % i)
+                if upper:
+                    ctx.oblige(res.corners[i, ny] * r.dy.corners[i, ny] == fup.xlow[i, 0] - f.xlow[i, -1], "corners[%d,ny]: difference across the upper join" % i)
+                else:
+                    ctx.oblige(res.corners[i, ny] * r.dy.corners[i, ny] == 2 * (f.corners[i, ny] - f.xlow[i, -1]), "corners[%d,ny]: one-sided at the upper target" % i)
+        return res
+
+    return run
+
+
 def run_dx_defined(ctx):
     """definedness: after the real geometry1 every dx entry DDX divides by has been assigned
     (non-zero for strictly monotone psi_vals)."""
@@ -82,6 +136,13 @@ def run_dx_defined(ctx):
                 ctx.oblige(Implies(mono, v != 0), "dx.%s != 0 for strictly monotone psi_vals" % l)
 
 
+def add_ddy(S):
+    S.under_contract("hypnotoad.core.mesh:MeshRegion.DDY")
+    for lo in (False, True):
+        for up in (False, True):
+            S.contract("DDY[lower=%s,upper=%s]" % (lo, up), "hypnotoad.core.mesh:MeshRegion.DDY", make_ddy_run(lo, up), shape="nx=1, ny=2")
+
+
 def build(S):
     S.under_contract(FN_DDX, FN_ZS, "hypnotoad.core.mesh:MeshRegion.geometry1", "hypnotoad.core.mesh:MeshRegion.geometry2")
     S.assume("A-SHAPE: DDX proved at nx=2, ny=1 for the four combinations of inner/outer neighbour, all values symbolic")
@@ -92,6 +153,7 @@ def build(S):
         for i in (False, True):
             for o in (False, True):
                 S.contract("DDX[inner=%s,outer=%s]" % (i, o), FN_DDX, make_ddx_run(i, o), shape="nx=2, ny=1")
+        add_ddy(S)
         from . import chainkit
 
         for per in (False, True):
